@@ -722,6 +722,6 @@ func init() {
 		Run:            c16Run,
 		Replay:         c16Replay,
 		QuickBudget:    150 * time.Second,
-		ThoroughBudget: 15 * time.Minute,
+		ThoroughBudget: 8 * time.Minute,
 	})
 }
